@@ -28,6 +28,8 @@ type Config struct {
 	QueryLog   string
 	Concrete   map[string][]string // concrete inputs (translator validation mode)
 	Deadline   time.Time
+	NoSlice    bool
+	Only       []string
 }
 
 type Explorer struct {
@@ -105,6 +107,7 @@ type Worker struct {
 	hostWG   sync.WaitGroup
 	pathDone chan struct{}
 	extCache map[*ssa.Function]extFn
+	fnInfo   map[*ssa.Function]*fnInfo
 	modelHits int
 	harness  *ssa.Function
 }
@@ -213,7 +216,7 @@ func Explore(prog *ssa.Program, harness *ssa.Function, cfg *Config, redirect map
 		}
 		w := &Worker{id: i, cfg: cfg, ex: ex, prog: prog, ts: ts, solver: s,
 			stubsHit: map[string]int{}, fnsHit: map[*ssa.Function]int{}, redirect: redirect,
-			kfOpen: kfOpen, initPkgs: initPkgs, extCache: map[*ssa.Function]extFn{}, harness: harness}
+			kfOpen: kfOpen, initPkgs: initPkgs, extCache: map[*ssa.Function]extFn{}, fnInfo: map[*ssa.Function]*fnInfo{}, harness: harness}
 		workers[i] = w
 		wg.Add(1)
 		go func() {
